@@ -1,6 +1,7 @@
 package main
 
 import (
+	"sort"
 	"fmt"
 	"go/ast"
 	"go/constant"
@@ -258,6 +259,13 @@ func (e *Engine) VerifyLemma(key string) *FuncResult {
 				}
 			}
 		}
+		// ghost globals of the lemma's package: arbitrary values
+		for name, gs := range e.Contracts.Globals {
+			if strings.HasPrefix(gs.Kind, "ghost:") && strings.HasPrefix(name, spec.Pkg+".") {
+				short := name[strings.Index(name, ".")+1:]
+				st.spec["ghost."+short] = Val{T: c.fresh("ghost."+short, strings.TrimPrefix(gs.Kind, "ghost:"))}
+			}
+		}
 		env := &Env{c: c, st: st, names: names, pkg: pk}
 		for _, ax := range e.Contracts.Axioms {
 			aenv := &Env{c: c, st: st, names: map[string]Val{}, pkg: e.PkgByName[ax.Pkg]}
@@ -441,7 +449,20 @@ func (e *Engine) verifyFuncPass(key string, pass int, proved map[string]bool) *F
 		}
 	}
 	// ghost globals
-	for name, gs := range e.Contracts.Globals {
+	// (sorted; a ghost of the function's own package wins when two packages use the same short name)
+	var gnames []string
+	for name := range e.Contracts.Globals {
+		gnames = append(gnames, name)
+	}
+	sort.Slice(gnames, func(i, j int) bool {
+		oi, oj := strings.HasPrefix(gnames[i], spec.Pkg+"."), strings.HasPrefix(gnames[j], spec.Pkg+".")
+		if oi != oj {
+			return oj
+		}
+		return gnames[i] < gnames[j]
+	})
+	for _, name := range gnames {
+		gs := e.Contracts.Globals[name]
 		if strings.HasPrefix(gs.Kind, "ghost:") {
 			sort := strings.TrimPrefix(gs.Kind, "ghost:")
 			if strings.Contains(sort, "I.error") {
